@@ -597,18 +597,57 @@ func genSchemaOp(h *vh.H, i int) string {
 	n := 1 + h.Rng.IntN(4)
 	used := map[string]bool{}
 	var segs []string
+	root := &Root{Kind: "obj"}
 	if h.Chance(1, 3) {
-		segs = append(segs, vh.Hex([]byte(vh.Pick(h, descs))))
-	} else {
-		segs = append(segs, "~")
+		root.Desc = ps(vh.Pick(h, descs))
 	}
+	switch {
+	case h.Chance(1, 6):
+		// `oneof Foo { option … }`: the options are the fields under test
+		root.Kind = "oneof"
+	default:
+		if h.Chance(1, 6) {
+			// entity annotation of the object (what the `entity` sugar writes on Keys / State / Event / Data objects)
+			root.Ent = ps(vh.Pick(h, []string{"Thing", "FooBar"}))
+			if h.Chance(4, 5) {
+				p := h.Rng.IntN(6)
+				root.Part = &p
+			}
+		}
+		if h.Chance(1, 8) {
+			root.AnyM = []string{vh.Pick(h, []string{"alpha", "foo.v1.things"})}
+			if h.Chance(1, 3) {
+				root.AnyM = append(root.AnyM, "second")
+			}
+		}
+		if h.Chance(1, 10) {
+			root.BarEnt = ps("Widget")
+		}
+	}
+	segs = append(segs, root.Encode())
 	for k := 0; k < n; k++ {
 		name := vh.Pick(h, fieldNames)
 		if used[name] {
 			name = fmt.Sprintf("%s%c", name, 'A'+k)
 		}
 		used[name] = true
-		segs = append(segs, genSpec(h, name, true).Encode())
+		s := genSpec(h, name, true)
+		if root.Kind == "oneof" {
+			// an option of a oneof: no `!` / `?`, not a primary key (would force required), and neither
+			// array nor map (proto has no repeated oneof members: the compiler's output does not re-parse)
+			s.Req, s.Opt = false, false
+			if s.PK != nil && *s.PK {
+				s.PK = nil
+			}
+			if s.Arr || s.Map {
+				s.Arr, s.Map, s.AR, s.AMin, s.AMax, s.AUniq, s.ASF = false, false, false, nil, nil, nil, nil
+			}
+		} else if root.BarEnt != nil && s.Kind == "obj" && !s.Map && !used["keys"] && h.Chance(1, 2) {
+			// the reader's legacy PSM lookup goes through a field called `keys`
+			s.Name = "keys"
+			used["keys"] = true
+		}
+		segs = append(segs, s.Encode())
 	}
 	return "schema " + strings.Join(segs, " ;; ")
 }
